@@ -4,6 +4,7 @@ import Mathlib.Tactic.NormNum.Prime
 import Extracted.Guards
 import Extracted.Consts
 import Proofs.E1Codec
+import Model.HashToCurve
 
 /-! # C01 — BLS Verify accepts exactly the one signature `sk • H(m)` per key, message, hasher
 
@@ -176,6 +177,33 @@ example : toy.toG1 ((3 : ZMod 7), (1 : ZMod 3)) = none := by
   show (if (1 : ZMod 3) = 0 then some (3 : ZMod 7) else none) = none
   decide
 
+/-! ### the concrete hash-to-curve the driver runs (`Model/HashToCurve.lean`)
+
+The acceptance theorems above hold for *every* hash-to-curve function `H : Bytes → G1`. The model also carries the
+one the library uses - KMAC128 expand-message, two field elements, simplified SWU to the 11-isogenous curve, isogeny,
+cofactor clearing - written from RFC 9380, so that `Sign` is predicted from `(sk, tag, message)` alone and compared
+with the implementation on every run (`sign-from-message`, `pop-gen-from-key`, `map-to-g1`). The facts below are
+kernel evaluations on samples (tests, labelled as tests): they guard the generated isogeny constants. -/
+
+open Model Model.H2C in
+/-- the SWU images of sample field elements, including the exceptional case `u = 0`, lie on E1' -/
+example : Curve.onCurve E1' (sswu 0) = true ∧ Curve.onCurve E1' (sswu 1) = true ∧
+    Curve.onCurve E1' (sswu (Bls.p - 1)) = true ∧ Curve.onCurve E1' (sswu 0x1234567890abcdef) = true := by decide +kernel
+
+open Model Model.H2C in
+/-- the 11-isogeny (constants regenerated from blst's source by `tools/gen_iso.py`) sends a point of E1' to a point of E1 -/
+example : Curve.onCurve Bls.E1 (iso (sswu 5)) = true ∧ (iso (sswu 5)).isSome = true := by decide +kernel
+
+open Model Model.H2C in
+/-- `map_to_G1` of 128 bytes whose two halves exceed `p` is a point of the prime-order subgroup G1 -/
+example : Bls.inG1 (mapToG1 (List.replicate 128 0xff)) = true ∧ (mapToG1 (List.replicate 128 0xff)).isSome = true := by
+  decide +kernel
+
+open Model Model.H2C in
+/-- `Sign` from the message is `sk • H(m)` compressed, with `H = mapToG1 ∘ expand` (definitional) -/
+theorem sign_from_message (suite : Model.Bytes) (sk : Nat) (tag msg : Model.Bytes) :
+    H2C.sign suite sk tag msg = Bls.signPoint sk (mapToG1 (expand suite tag msg)) := rfl
+
 end Props.C01
 
 #print axioms Props.C01.verify_iff
@@ -193,3 +221,4 @@ end Props.C01
 #print axioms Props.C01.signature_encoding_unique
 #print axioms verifyCore_iff
 #print axioms pairingCheck_iff
+#print axioms Props.C01.sign_from_message
